@@ -75,7 +75,10 @@ def prepare_scratch(repo, scratch):
                     f.write(inject.extract_fn_text(os.path.join(repo, ex["file"]), ex["scopes"], name) + "\n\n")
                 f.write(ex.get("footer", "") + "\n")
             continue
-        if ex.get("kind") == "fn_range":
+        if ex.get("kind") == "fn_body":
+            body, a, b = inject.extract_fn_body(os.path.join(repo, ex["file"]), ex["scopes"], ex["fn"])
+            ex = dict(ex, marker="fn " + ex["fn"])
+        elif ex.get("kind") == "fn_range":
             body, a, b = inject.extract_fn_range(os.path.join(repo, ex["file"]), ex["scopes"], ex["fn"], ex["marker"], ex["end_marker"])
         elif ex.get("kind") == "fn_tail":
             body, a, b = inject.extract_fn_tail(os.path.join(repo, ex["file"]), ex["scopes"], ex["fn"], ex["marker"])
